@@ -560,6 +560,13 @@ func RunBuild(env *Env, req BuildReq, logOff int) (res BuildResult, newOff int) 
 				}
 			case "remove":
 				os.Remove(filepath.Join(env.Root(), filepath.FromSlash(st.Path)))
+			case "unfail":
+				// disarm every injected body failure (the user fixed whatever made the body fail)
+				if fs, err := filepath.Glob(filepath.Join(env.Ctl(), "fail_*")); err == nil {
+					for _, f := range fs {
+						os.Remove(f)
+					}
+				}
 			case "reload":
 				if err := proj.Reload(); err != nil {
 					sr.Err = err.Error()
